@@ -631,6 +631,10 @@ class Unit:
                 text, line = weave_const(self.source(cur_src), parts[0], container)
                 if 'pub' in parts[1:] and not text.startswith('pub'):
                     text = 'pub ' + text
+                if 'external' in parts[1:]:
+                    # the initializer is outside the verifier's reach (e.g. a shift in a const context); its value is assumed
+                    # in the template and checked by a Kani harness
+                    text = '#[verifier::external_body]\n' + text
                 self.emit('// extracted from %s:%d' % (cur_src, line))
                 self.emit(text, [line + k for k in range(text.count('\n') + 1)], cur_src)
                 self.items.append({'item': 'const ' + parts[0], 'file': cur_src, 'line': line})
